@@ -99,6 +99,8 @@ def parseOp (ts : List String) : Option Op :=
   | ["apu", n, a, b, "P", _, p] => do pure (.addPump (← n.toNat?) (← a.toNat?) (← b.toNat?) .power (← optP p))
   | ["av", n, a, b, k, c] => do pure (.addValve (← n.toNat?) (← a.toNat?) (← b.toNat?) (← lkP k) (← optP c))
   | ["apat", n] => do pure (.addPattern (← n.toNat?))
+  | ["apat", n, _] => do pure (.addPattern (← n.toNat?))          -- 3rd token: number of multipliers (not modelled)
+  | ["acur", n, t, _] => do pure (.addCurve (← n.toNat?) (← ctP t))   -- 4th token: number of points (not modelled)
   | ["acur", n, t] => do pure (.addCurve (← n.toNat?) (← ctP t))
   | ["asrc", n, nd, p] => do pure (.addSource (← n.toNat?) (← nd.toNat?) (← optP p))
   | ["actl", n, ns, ls] => do
